@@ -449,7 +449,7 @@ func checkDocumentPartsBuilt(c *Ctx, p *core.Prog) {
 				if lc, isCall := bo.X.(*ssa.Call); isCall && bo.Op == token.GTR {
 					if bi, isB := lc.Call.Value.(*ssa.Builtin); isB && bi.Name() == "len" {
 						if k, isK := core.ConstInt(bo.Y); isK && k == 0 {
-							if _, isMap := lc.Call.Args[0].Type().Underlying().(*types.Map); isMap && rangedOver(m, lc.Call.Args[0]) {
+							if _, isMap := lc.Call.Args[0].Type().Underlying().(*types.Map); isMap && (rangedOver(m, lc.Call.Args[0]) || rangedOverInCallee(m, lc.Call.Args[0])) {
 								continue
 							}
 						}
@@ -461,6 +461,22 @@ func checkDocumentPartsBuilt(c *Ctx, p *core.Prog) {
 		c.R.Check(bad == "", "R10.7", "match: the input's "+cal.Name()+" runs whenever the loop that uses its result can run", p.Pos(call.Pos()), "unconditional, or guarded only by `the first pass is not empty`",
 			"the builder call also depends on the condition at "+bad+": the loop over the first-pass documents reads the part unconditionally, so on the inputs for which the condition is false (short inputs) it dereferences nil")
 	}
+}
+
+// rangedOverInCallee: the map is handed to a function of the package that ranges over the corresponding parameter.
+func rangedOverInCallee(fn *ssa.Function, m ssa.Value) bool {
+	for _, call := range core.CallsIn(fn) {
+		g := call.Common().StaticCallee()
+		if g == nil || core.FuncPkgPath(g) != v2pkg || len(g.Blocks) == 0 {
+			continue
+		}
+		for i, a := range call.Common().Args {
+			if a == m && i < len(g.Params) && rangedOver(g, g.Params[i]) {
+				return true
+			}
+		}
+	}
+	return false
 }
 
 // rangedOver: the map value is the operand of a range statement of fn.
